@@ -55,9 +55,12 @@ def cases(tier):
                     yield {'fam': fam, 'par': par, 'dim': dim, 'index': index, 'given': given}
 
 
-def make(case, idx_type=int):
+def make(case, idx_type=int, np_params=False):
     import scikit_tt.data_driven.transform as tdt
     fam, par, idx = case['fam'], case['par'], idx_type(case['index'])
+    if np_params:
+        # numeric parameters as NumPy scalars (np.max of data, entries of parameter arrays): np.float64 is a float
+        par = {k: (np.float64(v) if isinstance(v, float) else (np.int64(v) if isinstance(v, int) and not isinstance(v, bool) else v)) for k, v in par.items()}
     dim = case['dim'] if case['given'] else None
     if fam == 'Constant':
         return tdt.ConstantFunction(idx, dimension=dim)
@@ -253,6 +256,14 @@ def run_case(case, seed):
                                    'directions %d,%d as %s' % (k, l, npt.__name__))
                 r.true(key + ':numpy-int-direction:gradient', np.array_equal(np.asarray(fn_.gradient(p0)), np.asarray(f.gradient(p0))))
                 r.true(key + ':numpy-int-direction:value', fn_(p0) == f(p0))
+    # the same function built with NumPy-scalar parameters
+    if not no_d1 and fam != 'Bspline':
+        with r.op(key + ':numpy-scalar-parameters:call'):
+            fp = make(dict(case, given=True), int, True)
+            r.true(key + ':numpy-scalar-parameters:value', abs(float(fp(p0)) - float(f(p0))) <= 1e-14 * max(1.0, abs(float(f(p0)))))
+            r.true(key + ':numpy-scalar-parameters:partial', abs(float(fp.partial(p0, idx)) - float(f.partial(p0, idx))) <= 1e-13 * max(1.0, abs(float(f.partial(p0, idx)))))
+            if not no_d2:
+                r.true(key + ':numpy-scalar-parameters:partial2', abs(float(fp.partial2(p0, idx, idx)) - float(f.partial2(p0, idx, idx))) <= 1e-13 * max(1.0, abs(float(f.partial2(p0, idx, idx)))))
     # array evaluation of the derivatives where they are array-valued
     if not no_d1:
         with r.op(key + ':partial:array-call'):
